@@ -18,7 +18,8 @@ def both(name="main", **kw):
 
 def miri(name="miri", scale=0.01, shards=4, shards_thorough=16, **kw):
     d = dict(MIRI)
-    d.update({"name": name, "scale": scale, "shards": shards, "shards_thorough": shards_thorough})
+    # thorough budgets are ~50x the quick ones; under Miri (~10^4 x slower) a fifth of that per shard, on 16 shards
+    d.update({"name": name, "scale": scale, "scale_thorough": scale / 5, "shards": shards, "shards_thorough": shards_thorough})
     d.update(kw)
     return d
 
